@@ -31,7 +31,9 @@ Proof.
                                   aget y lr' = aget y (last_resp n)) as HE by (intros; eauto 6).
   destruct ((role (nd (start_S e n)) =? LEADER) && (t =? term (nd (start_S e n)))).
   2:{ split; [reflexivity|]. cbn. exists (next_idx n), (match_idx n), (last_resp n). split; [apply node_eta3 | auto]. }
-  set (s1 := if reset then upd (fun n => n <| next_idx := aset x next (next_idx n) |>) (start_S e n) else start_S e n).
+  set (s1 := if reset then upd (fun n => n <| next_idx := aset x (match aget x (next_idx n) with
+                                                             | Some cur => N.min next cur | None => next end)
+                                                            (next_idx n) |>) (start_S e n) else start_S e n).
   assert (outs s1 = [] /\ exists ni, nd s1 = n <| next_idx := ni |> /\ (forall y, y <> x -> aget y ni = aget y (next_idx n)) /\
           match_idx (nd s1) = match_idx n /\ last_resp (nd s1) = last_resp n) as (O1 & ni1 & N1 & A1 & M1 & L1).
   { subst s1. destruct reset; cbn.
